@@ -15,9 +15,9 @@ HERE = os.path.dirname(os.path.dirname(os.path.abspath(__file__)))
 if HERE not in sys.path:
     sys.path.insert(0, HERE)
 
-SPEC_MODULES = ['spec.calendar', 'spec.strings']
-CONTRACT_MODULES = ['contracts.inputs', 'contracts.strings']
-VOCAB_MODULES = ['pyvc.rx_rules', 'pyvc.prims_sym']
+SPEC_MODULES = ['spec.calendar', 'spec.strings', 'spec.css_sem']
+CONTRACT_MODULES = ['contracts.inputs', 'contracts.strings', 'contracts.nav', 'contracts.match']
+VOCAB_MODULES = ['pyvc.rx_rules', 'pyvc.prims_sym', 'pyvc.tree']
 
 
 def build_world():
